@@ -24,6 +24,17 @@ def run_am(p):
             pol = AttentionModelPolicy(env_name=name, embed_dim=16, num_heads=2, num_encoder_layers=1, normalization=p["norm"])
             pol = pol.train() if p.get("train_mode") else pol.eval()
             gen = env.generator(batch_size=[3])
+            if name == "mtvrp" and (p.get("variant") or "").startswith("mix:"):
+                # X and Y of different variants: generate one instance per requested variant preset and stack them
+                from rl4co.envs.routing.mtvrp.generator import MTVRPGenerator
+
+                def preset(v):
+                    o, tw, l, b = "O" in v, "TW" in v, "L" in v.replace("TW", ""), "B" in v
+                    return ("o" if o else "") + "vrp" + ("b" if b else "") + ("l" if l else "") + ("tw" if tw else "") if (o or tw or l or b) else "cvrp"
+
+                vs = p["variant"][4:].split("/")
+                rows = [MTVRPGenerator(num_loc=n, variant_preset=preset(vs[r % len(vs)]))(batch_size=[1]) for r in range(3)]
+                gen = torch.cat(rows, 0)
             if name == "mtsp":
                 gen["num_agents"] = torch.tensor([1, n - 1, 2])[:3].clamp(max=n - 1)
             X, Y = gen[0:1], gen[1:2]
